@@ -406,3 +406,10 @@ theorem C03_lex_ascii_outcome (inp : Bytes) (hA : Ascii inp) (hb : BlocksOK (inp
 -- the hypotheses are satisfiable and the conclusion is not vacuous
 example : BlocksOK 40 (str "{ a(x: \"s\\n\", y: 1.5e3) \"\"\"b\"\"\" }") = true := by decide
 example : (match Spec.lex (str "{ a }") with | .ok ts => ts.length | _ => 0) = 3 := by decide
+
+#print axioms C03_step_ascii
+#print axioms C03_block_ascii
+#print axioms C03_block_long_run_counterexample
+#print axioms C03_lex_ascii
+#print axioms C03_lex_ascii_no_block
+#print axioms C03_lex_ascii_outcome
